@@ -359,7 +359,7 @@ fn expand_calibrations(req: &Value) -> Value {
         Ok((p, sm)) => {
             let n_out = p.body_instructions().count();
             let n_src = program.body_instructions().count();
-            let sources: Vec<Value> = (0..n_out).map(|t| dbg(&sm.list_sources(&InstructionIndex(t)))).collect();
+            let sources: Vec<Value> = (0..=n_out).map(|t| dbg(&sm.list_sources(&InstructionIndex(t)))).collect();
             let targets: Vec<Value> = (0..n_src).map(|s| dbg(&sm.list_targets(&InstructionIndex(s)))).collect();
             json!({"ok": {"body": p.body_instructions().map(dbg).collect::<Vec<_>>(), "listing": listing(&p.to_instructions()),
                           "source_map": dbg(&sm), "list_sources": sources, "list_targets": targets}})
@@ -369,8 +369,92 @@ fn expand_calibrations(req: &Value) -> Value {
     json!({"source_body": source_body, "plain": plain, "mapped": mapped})
 }
 
+/// type_check verdict for each program text: "Ok" or the error variant name.
+fn type_check(req: &Value) -> Value {
+    let mut out = vec![];
+    for t in req["programs"].as_array().unwrap() {
+        let program = match Program::from_str(t.as_str().unwrap()) {
+            Ok(p) => p,
+            Err(e) => {
+                out.push(json!({"input_error": format!("{e:?}")}));
+                continue;
+            }
+        };
+        match quil_rs::program::type_check::type_check(&program) {
+            Ok(()) => out.push(json!("Ok")),
+            Err(e) => {
+                let d = format!("{e:?}");
+                out.push(json!({"err": d.split(|c: char| !c.is_alphanumeric()).next().unwrap_or("").to_string()}))
+            }
+        }
+    }
+    json!({"results": out})
+}
+
+/// Build a body with qubit / label placeholders through the public API and resolve them.
+/// spec: [{"kind": "gate"|"measure"|"fence"|"label"|"jump"|"jumpwhen", "qubits": [["fixed", n] | ["ph", id]], "target": ["fixed", name] | ["ph", id, base]}]
+/// custom: null for the default resolvers, else {"qubits": {id: value}, "targets": {id: name}} (only these are resolved)
+fn placeholders(req: &Value) -> Value {
+    use quil_rs::instruction::{
+        Fence, Gate, Jump, JumpWhen, Label, Measurement, MemoryReference, Qubit, QubitPlaceholder, Target, TargetPlaceholder,
+    };
+    let mut qph: HashMap<u64, QubitPlaceholder> = HashMap::new();
+    let mut tph: HashMap<u64, TargetPlaceholder> = HashMap::new();
+    let mut program = Program::new();
+    for item in req["spec"].as_array().unwrap() {
+        let mut qubits = vec![];
+        if let Some(qs) = item["qubits"].as_array() {
+            for q in qs {
+                let a = q.as_array().unwrap();
+                if a[0] == "fixed" {
+                    qubits.push(Qubit::Fixed(a[1].as_u64().unwrap()));
+                } else {
+                    let id = a[1].as_u64().unwrap();
+                    qubits.push(Qubit::Placeholder(qph.entry(id).or_default().clone()));
+                }
+            }
+        }
+        let target = item["target"].as_array().map(|a| {
+            if a[0] == "fixed" {
+                Target::Fixed(a[1].as_str().unwrap().to_string())
+            } else {
+                let id = a[1].as_u64().unwrap();
+                let base = a[2].as_str().unwrap().to_string();
+                Target::Placeholder(tph.entry(id).or_insert_with(|| TargetPlaceholder::new(base)).clone())
+            }
+        });
+        let ins = match item["kind"].as_str().unwrap() {
+            "gate" => Instruction::Gate(Gate::new("X", vec![], qubits, vec![]).unwrap()),
+            "measure" => Instruction::Measurement(Measurement { name: None, qubit: qubits[0].clone(), target: None }),
+            "fence" => Instruction::Fence(Fence { qubits }),
+            "label" => Instruction::Label(Label { target: target.unwrap() }),
+            "jump" => Instruction::Jump(Jump { target: target.unwrap() }),
+            "jumpwhen" => Instruction::JumpWhen(JumpWhen { target: target.unwrap(), condition: MemoryReference { name: "ro".to_string(), index: 0 } }),
+            k => return json!({"unknown_kind": k}),
+        };
+        program.add_instruction(ins);
+    }
+    let before: Vec<Value> = program.body_instructions().map(dbg).collect();
+    if req["custom"].is_null() {
+        program.resolve_placeholders();
+    } else {
+        let qmap: HashMap<QubitPlaceholder, u64> = req["custom"]["qubits"].as_object().unwrap().iter()
+            .filter_map(|(k, v)| qph.get(&k.parse::<u64>().unwrap()).map(|p| (p.clone(), v.as_u64().unwrap()))).collect();
+        let tmap: HashMap<TargetPlaceholder, String> = req["custom"]["targets"].as_object().unwrap().iter()
+            .filter_map(|(k, v)| tph.get(&k.parse::<u64>().unwrap()).map(|p| (p.clone(), v.as_str().unwrap().to_string()))).collect();
+        program.resolve_placeholders_with_custom_resolvers(
+            Box::new(move |p| tmap.get(p).cloned()),
+            Box::new(move |p| qmap.get(p).copied()),
+        );
+    }
+    let after: Vec<Value> = program.body_instructions().map(dbg).collect();
+    json!({"before": before, "after": after, "used_qubits": program.get_used_qubits().iter().map(dbg).collect::<Vec<_>>()})
+}
+
 pub fn run(op: &str, req: &Value) -> Value {
     match op {
+        "placeholders" => placeholders(req),
+        "type_check" => type_check(req),
         "expand_calibrations" => expand_calibrations(req),
         "calibration_match" => calibration_match(req),
         "roles" => roles(req),
